@@ -35,6 +35,14 @@ def gen(ctx):
             for dt in (dts[1:] if ctx.tier == "thorough" else [rng.choice(dts[1:])]):
                 yield dict(kind="batch", loop=loop, c=c, m=m, dtype=dt)
     # out-of-alphabet states (orientation independence is claimed over all states)
+    # construction order: every loop probed on the keys where the three tables differ (and some random ones), after all
+    # three were built in each of the six orders in one process
+    import itertools
+    probes = [[1, 1, 1, 5, 2], [1, 2, 1, 1, 5], [1, 5, 2, 1, 1], [1, 1, 5, 2, 1]] + [[rng.randrange(8) for _ in range(5)] for _ in range(4)]
+    for order in itertools.permutations(LOOPS):
+        for loop in LOOPS:
+            for key in probes:
+                yield dict(kind="call", loop=loop, key=key, order=",".join(order))
     for loop in LOOPS:
         for _ in range(ctx.n(40, 400)):
             yield dict(kind="call", loop=loop, key=[rng.choice([-1, 0, 1, 2, 5, 8, 9, 10]) for _ in range(5)])
@@ -90,8 +98,15 @@ def line(c):
 _LOOPS = {}
 
 
-def loop_obj(name):
+def loop_obj(name, order=None):
+    """The loop rule under test. With `order` (a permutation of the three loops, e.g. 'langton,sdsr,evoloop'): all three
+    are constructed afresh in that order first — one loop's table must not depend on which others exist."""
     import cellpylib as cpl
+    if order:
+        key = "order:" + order
+        if key not in _LOOPS:
+            _LOOPS[key] = {nm: getattr(cpl, LOOPS[nm][0])() for nm in order.split(",")}
+        return _LOOPS[key][name]
     if name not in _LOOPS:
         _LOOPS[name] = getattr(cpl, LOOPS[name][0])()
     return _LOOPS[name]
@@ -128,7 +143,7 @@ def impl(c):
         if c["kind"] == "batch":
             return "ok " + ",".join(batch(c))
         if c["kind"] == "call":
-            return "ok " + call_loop(loop_obj(c["loop"]), c["key"])
+            return "ok " + call_loop(loop_obj(c["loop"], c.get("order")), c["key"])
         sc = 0.5 if c.get("half") else 1
         table = {tuple(x * sc for x in e[:5]): e[5] for e in c["entries"]}
         rule = cpl.CTRBLRule(table, add_rotations=bool(c["rot"]))
@@ -183,6 +198,46 @@ def sayama_default(loop, c, trbl):
     return 0 if c == 0 else 8                      # undefined 0 stays 0, undefined 1-7 become 8
 
 
+_OWN = {}
+
+
+def own_table_entry(loop, key):
+    """The entry for `key` in the loop's own table as written in the source (None: not in the table / source not readable)."""
+    if not _OWN:
+        try:
+            import ast
+            import os
+            import sys
+            from .. import core
+            sys.path.insert(0, os.path.join(core.VERIF, "tools"))
+            import translate as T
+            src = lambda f: ast.parse(open(os.path.join(core.REPO, "cellpylib", f)).read())     # noqa: E731
+            lang, lrot = T.super_init_table(T.find_class(src("langtons_loop.py"), "LangtonsLoop"))
+            evo, erot = T.super_init_table(T.find_class(src("evoloop.py"), "Evoloop"))
+            extra = T.sdsr_extra(T.find_class(src("sdsr_loop.py"), "SDSRLoop"))
+
+            def closed(entries, rotate):
+                t = {}
+                for k, v in entries:
+                    t[tuple(k)] = v
+                    if rotate:
+                        kk = tuple(k)
+                        for _ in range(3):
+                            kk = rot(kk)
+                            t[kk] = v
+                return t
+            _OWN["langton"] = closed(lang, lrot)
+            _OWN["evoloop"] = closed(evo, erot)
+            sd = closed(lang, lrot)
+            for k, v in extra:
+                sd[tuple(k)] = v
+            _OWN["sdsr"] = sd
+        except Exception:       # the source no longer has the literal shape: this clause is skipped
+            _OWN["unreadable"] = True
+    t = _OWN.get(loop)
+    return None if t is None else t.get(tuple(key))
+
+
 def oracle(c):
     import cellpylib as cpl
     if c["kind"] == "batch":
@@ -213,13 +268,23 @@ def oracle(c):
                             c["loop"], c["c"], t, r, b, l, v, want)
         return None
     if c["kind"] == "call":
-        obj = loop_obj(c["loop"])
+        obj = loop_obj(c["loop"], c.get("order"))
         k = tuple(c["key"])
         vs = set()
         for _ in range(4):
             vs.add(call_loop(obj, k))
             k = rot(k)
-        return None if len(vs) == 1 else "%s not orientation independent on %s: %s" % (c["loop"], c["key"], sorted(vs))
+        if len(vs) != 1:
+            return "%s not orientation independent on %s: %s" % (c["loop"], c["key"], sorted(vs))
+        # "answers with the table entry": the entry of the loop's OWN table — the literal its constructor hands to
+        # CTRBLRule (read from the source), closed under rotation, plus what SDSRLoop's constructor adds — whatever
+        # other loop objects exist in the process
+        want = own_table_entry(c["loop"], tuple(c["key"]))
+        got = call_loop(obj, tuple(c["key"]))
+        if want is not None and got != str(want):
+            return "%s%s answers %s, its own table says %d%s" % (
+                c["loop"], tuple(c["key"]), got, want, (" (loops constructed in the order %s)" % c["order"]) if c.get("order") else "")
+        return None
     sc = 0.5 if c.get("half") else 1
     table = {tuple(x * sc for x in e[:5]): e[5] for e in c["entries"]}
     rule = cpl.CTRBLRule(table, add_rotations=bool(c["rot"]))
